@@ -3,9 +3,12 @@ package c08
 import (
 	"bytes"
 	"context"
+	"crypto/sha256"
 	"encoding/hex"
+	"encoding/json"
 	"fmt"
 	"math/big"
+	"regexp"
 	"strings"
 
 	abci "github.com/cometbft/cometbft/abci/types"
@@ -104,6 +107,65 @@ func (e *env) queryChecked(q *query, before *stateSnap) *stateSnap {
 	if esc != nil {
 		run.Violation("query-panic-escaped:"+q.Kind, e.label, map[string]any{"query": q.describe(), "panic": fmt.Sprint(esc)})
 	}
+	// a struct-logger trace of a recorded transaction (block number, hash, time and proposer in the request, every executed
+	// predecessor replayed first) re-executes what the block executed: it reports the gas the transaction used there
+	if want, ok := q.Desc["executed_gas_used"].(uint64); ok && res != nil && res.Code == 0 && esc == nil {
+		var out evmtypes.QueryTraceTxResponse
+		var tr struct {
+			Gas    uint64 `json:"gas"`
+			Failed bool   `json:"failed"`
+		}
+		if out.Unmarshal(res.Value) == nil && json.Unmarshal(out.Data, &tr) == nil && tr.Gas > 0 {
+			run.Count("recorded_tx_traces_compared_with_the_executed_gas", 1)
+			if tr.Gas != want {
+				run.Violation("trace-of-a-recorded-transaction-differs-from-its-execution:gas", e.label, map[string]any{"query": q.describe(), "traced_gas": tr.Gas, "executed_gas_used": want, "head": e.q.Height})
+			}
+		}
+	}
+	if want, ok := q.Desc["executed_gas_used_per_tx"].([]uint64); ok && res != nil && res.Code == 0 && esc == nil {
+		var out evmtypes.QueryTraceBlockResponse
+		var trs []struct {
+			Result struct {
+				Gas uint64 `json:"gas"`
+			} `json:"result"`
+			Error string `json:"error"`
+		}
+		if out.Unmarshal(res.Value) == nil && json.Unmarshal(out.Data, &trs) == nil && len(trs) == len(want) {
+			for i := range trs {
+				if trs[i].Error != "" || trs[i].Result.Gas == 0 {
+					continue
+				}
+				run.Count("recorded_block_trace_entries_compared_with_the_executed_gas", 1)
+
+				if trs[i].Result.Gas != want[i] {
+					run.Violation("trace-of-a-recorded-block-differs-from-its-execution:gas", e.label, map[string]any{"query": q.describe(), "tx_index_among_ethereum_txs": i,
+						"traced_gas": trs[i].Result.Gas, "executed_gas_used": want[i], "head": e.q.Height})
+					break
+				}
+			}
+		}
+	}
+	// (JavaScript tracers are left out: they run under the request's own wall-clock timeout, so an answer may legitimately
+	// be "execution timeout" on a loaded machine)
+	if tn, _ := q.Desc["tracer"].(string); (q.Sub == "recorded-block" || q.Sub == "recorded-tx") && res != nil && esc == nil && !strings.HasPrefix(tn, "js-") &&
+		!strings.Contains(string(res.Value), "execution timeout") && !strings.Contains(res.Log, "execution timeout") {
+		key := fmt.Sprintf("%s|%d|%x", q.Path, q.Height, sha256.Sum256(q.Data))
+		if e.traceSeen == nil {
+			e.traceSeen = map[string]traceAnswer{}
+		}
+		if prev, ok := e.traceSeen[key]; !ok {
+			e.traceSeen[key] = traceAnswer{code: res.Code, value: stripWallClock(res.Value), atHead: e.q.Height}
+			if len(e.traceOld) < 64 {
+				e.traceOld = append(e.traceOld, q)
+			}
+		} else if prev.atHead != e.q.Height {
+			run.Count("recorded_traces_asked_again_at_a_later_head", 1)
+			if now := stripWallClock(res.Value); prev.code != res.Code || prev.value != now {
+				run.Violation("answer-for-a-fixed-height-changed-as-the-chain-advanced:"+q.Kind, e.label, map[string]any{"query": q.describe(), "first_asked_at_head": prev.atHead,
+					"asked_again_at_head": e.q.Height, "first_answer": trunc(prev.value, 3000), "second_answer": trunc(stripWallClock(res.Value), 3000), "codes": []uint32{prev.code, res.Code}})
+			}
+		}
+	}
 	if what, detail := diffSnap(before, after, true); len(what) > 0 {
 		detail["query"] = q.describe()
 		detail["result_class"] = class
@@ -117,6 +179,11 @@ func (e *env) queryChecked(q *query, before *stateSnap) *stateSnap {
 	}
 	return after
 }
+
+// the call tracers report how long each frame took on this machine ("time":"2.48ms"): not part of the answer
+var wallClockField = regexp.MustCompile(`"time":"[^"]*"`)
+
+func stripWallClock(b []byte) string { return wallClockField.ReplaceAllString(string(b), `"time":"-"`) }
 
 func trunc(s string, n int) string {
 	if len(s) > n {
@@ -348,6 +415,10 @@ func (e *env) genBlock() []*vh.TxPlan {
 		default:
 			plans = append(plans, w.PlanCosmosSend(s, vh.Pick(r, w.Pool), int64(1+r.Intn(1_000_000))))
 		}
+	}
+	if r.Chance(2, 3) { // most blocks carry a call of the writer, whose gas depends on the block's own time
+		to := e.writer
+		plans = append(plans, w.PlanEth(vh.Pick(r, w.EOAs), &to, nil, 1_500_000, r.Bytes(r.Intn(6)), "ok", nil))
 	}
 	return plans
 }
